@@ -20,6 +20,10 @@ DetectCycles(codes, thr, m) == IF Len(codes) = 0 THEN <<>>
 DetectAmp(fracCodes, thrCode, m) == IF Len(fracCodes) = 0 THEN <<>>
                                     ELSE MinRunFold([i \in 1 .. Len(fracCodes) |-> AtLeast(fracCodes[i], thrCode)], m)
 
+\* the same rule on EXACT fractions <<numerator, denominator>> and an exact threshold: a cycle whose fraction equals the threshold qualifies
+DetectAmpExact(fracs, thr, m) == IF Len(fracs) = 0 THEN <<>>
+                                  ELSE MinRunFold([i \in 1 .. Len(fracs) |-> ~IsNaN(fracs[i]) /\ RatLe(thr, fracs[i])], m)
+
 \* fraction of the cycle's samples, last..next INCLUSIVE, that the sample-wise detector marks
 BurstFraction(mask, r) == Rat(Cardinality({ i \in r.last .. r.next : At(mask, i) }), r.next - r.last + 1)
 
